@@ -113,7 +113,8 @@ def run(rep: Report, tier: str) -> None:
 		if f is None:
 			r2.skip(name, bp.where, f'BlockParser.{name} vanished')
 			continue
-		fx = X(f)
+		from vlib.match import inline_simple_calls
+		fx = inline_simple_calls(f, X(f))  # one-expression helpers and guard-style predicates (`cls._at_separator(text, delimiter, i)`) read in place
 		text_p = f.params()[1] if f.params()[0] in ('cls', 'self') else f.params()[0]
 		loops = [lp for lp in nodes(fx, (ast.While, ast.For))]
 		def res(e: ast.AST, depth: int = 0) -> ast.AST:
@@ -468,11 +469,11 @@ def rule_separator_flush(rep: Report, bp) -> None:
 		return
 	text_p, delim_p = [p_ for p_ in f.params() if p_ not in ('cls', 'self')][:2]
 	# helpers that only record a piece (`cls._push_block(blocks, text, begin, index)`) are read where they are called
-	from vlib.match import merged_function
+	from vlib.match import merged_function, inline_simple_calls, inline_predicates
 	import types
 	f_orig = f
 	try:
-		merged = merged_function(f, stmts=True)
+		merged = inline_simple_calls(f, merged_function(f, stmts=True))
 		if any(isinstance(n, (ast.While, ast.For)) for n in merged.body):
 			f = types.SimpleNamespace(node=merged, where=f_orig.where, params=f_orig.params, qualname=f_orig.qualname)
 	except RecursionError:
@@ -515,7 +516,7 @@ def rule_separator_flush(rep: Report, bp) -> None:
 		lo_n = {x.id for x in ast.walk(sl.slice.lower) if isinstance(x, ast.Name)} if sl.slice.lower is not None else set()
 		hi_n = {x.id for x in ast.walk(sl.slice.upper) if isinstance(x, ast.Name)} if sl.slice.upper is not None else set()
 		dropped = None
-		for a, p_ in atoms(f.node, c_):
+		for a, p_ in inline_predicates(f_orig, atoms(f.node, c_)):
 			names_a = {x.id for x in ast.walk(a) if isinstance(x, ast.Name)}
 			if isinstance(a, ast.Compare) and lo_n and hi_n and lo_n <= names_a and hi_n <= names_a and names_a <= (lo_n | hi_n):
 				dropped = a
@@ -528,7 +529,7 @@ def rule_separator_flush(rep: Report, bp) -> None:
 		return
 	for c_ in cuts:
 		implied = False
-		for a, p_ in atoms(f.node, c_):
+		for a, p_ in inline_predicates(f_orig, atoms(f.node, c_)):
 			if not (p_ and isinstance(a, ast.Compare) and len(a.ops) == 1 and isinstance(a.ops[0], (ast.Lt, ast.LtE, ast.Gt, ast.GtE))):
 				continue
 			l_, r_ = (a.left, a.comparators[0]) if isinstance(a.ops[0], (ast.Lt, ast.LtE)) else (a.comparators[0], a.left)
